@@ -4,9 +4,10 @@
 package walk
 
 import (
-	"reflect"
 	"encoding/json"
 	"fmt"
+	"github.com/freeconf/yang/node"
+	"reflect"
 	"sort"
 
 	"github.com/freeconf/yang/meta"
@@ -18,8 +19,8 @@ type W struct {
 	// Problems: by-name lookups (Definition(ident)) that disagree with the listed children
 	Problems []string
 	Nodes    int
-	seen   map[meta.Meta]bool
-	depth  int
+	seen     map[meta.Meta]bool
+	depth    int
 }
 
 type M = map[string]interface{}
@@ -167,6 +168,7 @@ func (w *W) typ(t *meta.Type, depth int) interface{} {
 	}
 	out := M{"ident": t.Ident(), "format": t.Format().String(), "path": t.Path(), "fraction-digits": t.FractionDigits(), "require-instance": t.RequireInstance(),
 		"description": t.Description(), "reference": t.Reference()}
+
 	var ranges, lengths []interface{}
 	for _, r := range t.Range() {
 		ranges = append(ranges, M{"s": r.String(), "error-message": r.ErrorMessage(), "error-app-tag": r.ErrorAppTag(), "description": r.Description()})
@@ -365,6 +367,8 @@ func (w *W) node(d meta.Definition, parent meta.Meta) M {
 				out["default"] = fmt.Sprint(x.DefaultValue())
 			}
 			out["type"] = w.typ(x.Type(), 0)
+			// what a request does with the type of a leaf first: convert a value (the outcome is of no interest here, that it ends is)
+			w.try("type.convert", func() { node.NewValue(x.Type(), "1") })
 		}
 	})
 	w.try("typedefs", func() {
